@@ -218,7 +218,30 @@ func worldC05(w *World) {
 	if h2aged {
 		fp.AddRequest("warm", serialiseRequest("GET", "/warm", "example.test", http.Header{}, nil), "")
 	}
+	// other responses may be streaming already: four long-lived ones are under way
+	// when the measured request is announced, together with a fifth
+	bgStreams := !gce && !h2aged && !graceful && t.Rare(1, 8, "background-streams")
+	bgListed := false
+	bgFirst := t.Choice(2, "bgorder") == 0
+	if bgStreams {
+		for i := 0; i < 5; i++ {
+			fp.AddRequest(fmt.Sprintf("bg%d", i), serialiseRequest("GET", "/bg", "example.test", http.Header{}, nil), "")
+		}
+		w.Probe("other_streams_open_when_the_stream_starts")
+	}
 	fp.OnList = func(k int, r *http.Request) (int, []byte) {
+		if bgStreams && !bgListed {
+			bgListed = true
+			return 200, jsonList([]string{"bg0", "bg1", "bg2", "bg3"})
+		}
+		if bgStreams && !listed {
+			listed = true
+			time.Sleep(2 * time.Second)
+			if bgFirst {
+				return 200, jsonList([]string{"bg4", id})
+			}
+			return 200, jsonList([]string{id, "bg4"})
+		}
 		if h2aged && !warmListed {
 			warmListed = true
 			return 200, jsonList([]string{"warm"})
@@ -249,7 +272,7 @@ func worldC05(w *World) {
 	var mu sync.Mutex
 	sc := &streamCounter{}
 	fp.OnUpload = func(uid string, attempt int, rw http.ResponseWriter, r *http.Request) bool {
-		if uid == "warm" {
+		if uid == "warm" || strings.HasPrefix(uid, "bg") {
 			return false
 		}
 		mu.Lock()
@@ -279,7 +302,7 @@ func worldC05(w *World) {
 	}
 	var arrivals []arrival
 	fp.OnChunk = func(cid string, _ int, piece []byte) {
-		if cid == "warm" {
+		if cid == "warm" || strings.HasPrefix(cid, "bg") {
 			return
 		}
 		mu.Lock()
@@ -307,6 +330,13 @@ func worldC05(w *World) {
 		handler := http.HandlerFunc(func(rw http.ResponseWriter, r *http.Request) {
 			if r.URL.Path == "/warm" {
 				rw.Write([]byte("warm"))
+				return
+			}
+			if r.URL.Path == "/bg" {
+				// a long-lived stream: one byte now, the rest much later
+				rw.Write([]byte("x"))
+				rw.(http.Flusher).Flush()
+				time.Sleep(time.Hour)
 				return
 			}
 			if htmlType {
